@@ -10,7 +10,8 @@ os.environ.setdefault("OMP_NUM_THREADS", "1")
 def one(patch):
     from sa import props
     from sa.core import Repo, AnalysisError
-    from sa.runner import RULES, Ctx
+    from sa.runner import RULES, Ctx, load_known
+    KNOWN_OPEN = load_known()
     d = tempfile.mkdtemp(prefix="eq_")
     out = []
     tag = f"{os.path.basename(os.path.dirname(patch))}/{os.path.basename(patch)}"
@@ -37,6 +38,9 @@ def one(patch):
                 if len(obs) < mi and not any(not o.ok for o in obs):
                     raise AnalysisError(f"rule {rn}: {len(obs)} instances found, {mi} confirmed by hand -- the rule would pass vacuously")
                 for o in obs:
+                    if not o.ok and any(k.get("status") == "open" and k.get("rule") == o.rule and k.get("function") == o.func and
+                                        " ".join(k.get("construct", "").split()) == " ".join(o.construct.split()) for k in KNOWN_OPEN):
+                        continue        # the open known finding of the tree itself: a refactoring neither adds nor removes it
                     if not o.ok and (o.rule, o.line, o.construct) not in seen:
                         seen.add((o.rule, o.line, o.construct))
                         n += 1
